@@ -12,7 +12,7 @@ EXTENDS Integers, Sequences, TLC
 CONSTANTS NShards, NLines
 VARIABLES sh, l
 Init == sh = 0 /\ l = 0
-Next == \/ sh = 0 /\ sh' \in 1..NShards /\ l' = sh'
+Next == \/ sh = 0 /\ sh' \in 1..NShards /\ sh' <= NLines /\ l' = sh'
         \/ sh # 0 /\ l + NShards <= NLines /\ l' = l + NShards /\ sh' = sh
 Active == sh # 0 /\ l <= NLines
 =============================================================================
